@@ -58,11 +58,14 @@ def run(tier, seed):
     prof = gen.profile(max_len=12)
     root = build.scratch_dir("c13")
     tc.tool("asn1c", "asan"); tc.skel("asan"); tc.driver_obj("vdriver", "asan"); tc.driver_obj("ledger", "asan")
-    for mi in range(nmod):
+    from ..asn import shapes
+    for mi in range(nmod + 1):
         mseed = seed * 1000 + 1300 + mi
-        osets = option_sets(tier, rng, mi < nfull)
+        osets = option_sets(tier, rng, mi < nfull or mi == nmod)
+        shp = mi == nmod        # the last round is the fixed 'OPT' shapes module under every option subset
         with ThreadPoolExecutor(6) as ex:
             builds = list(ex.map(lambda o: harness.make(tc, mseed, prof, atoms=10, composites=8, options=o,
+                                                        module_fn=(lambda g: shapes.build5("OPT")) if shp else None,
                                                         workroot=os.path.join(root, "m%d-%d" % (mi, osets.index(o)))), osets))
         base = builds[0]
         if base.exe is None:
@@ -72,7 +75,7 @@ def run(tier, seed):
         cases, meta = [], {}
         cid = 0
         for tname, t in base.mod.types.items():
-            for v in base.gen.values(t, nvals):
+            for v in (shapes.values5(base.mod, tname, rng, quick) if shp else base.gen.values(t, nvals)):
                 ref = harness.ref_der(base, t, v)
                 if ref is None:
                     continue
